@@ -25,6 +25,7 @@ RULE = (
     "either side), 'fixed-tau', 'guess' (regularize_initial_guess), 'bad-bounds' and 'round-trip' (window ending in "
     "[0.6 tau, 3 tau]). Non-trivial = bounds finite on at least one side with the default guess outside them, or "
     "fixed-tau, or a round trip, or a scaling case with >= 50 samples. Distinct = hash of the case record."
+    " One fixed-tau case in eight fits 4097..20000 noisy samples (every sample counts in the closed-form optimum)."
 )
 ASSUMPTIONS = [
     "M from 1e-6 to 1e12 and tau from 1e-6 to 3e9 (any production / time unit: 10 years are 3.2e8 s); an earlier version of this check restricted round trips to M^2/tau >= 1e-3 and called the failures below that SciPy's business - wrongly: the fit must not depend on the production unit, and the library now normalises the data (fix 5cafe7e)",
@@ -114,6 +115,10 @@ def strategy_(draw):
         c["noise"] = draw(st.sampled_from([0.0, 0.0, 0.05, 0.5]))
         c["noise_seed"] = draw(st.integers(0, 2**16))
         c["tau_fixed_factor"] = draw(st.floats(-1.0, 1.0))
+        if kind == "fixed-tau" and draw(st.integers(0, 7)) == 0:
+            # long histories (hourly data, decades of daily data): every sample counts in the least-squares optimum
+            c["n"] = draw(st.sampled_from([4097, 5000, 8191, 9000, 20000]))
+            c["noise"] = draw(st.sampled_from([0.05, 0.15, 0.5]))
         # a supplied tau may be a Python int, a numpy scalar or a 0-d array just as well as a float
         c["tau_form"] = draw(forms.scalar_form())
         c["guess"] = [draw(st.floats(-6.0, 14.0)), draw(st.floats(-6.0, 8.0))]
